@@ -85,6 +85,20 @@ def run (alg : String) (a : Args) : Option (M String) := do
   | "add" => do pure (mat (addDense (← m 0) (← m 1)))
   | "emul" => do pure (mat (emulDense (← m 0) (← m 1)))
   | "mul" => do pure (mat (mulDense (← m 0) (← m 1)))
+  | "mul_alias" => do
+    let A ← m 0
+    let B ← (if (s 0) == some 3 then some A else m 1)
+    pure (mat (mulDenseAliased A B))
+  | "add_alias" => do
+    let A ← m 0
+    let B ← (if (s 0) == some 3 then some A else m 1)
+    pure (mat (addDense A B))
+  | "emul_alias" => do
+    let A ← m 0
+    let B ← (if (s 0) == some 3 then some A else m 1)
+    pure (mat (emulDense A B))
+  | "adds_alias" => do pure (mat (addScalar (← m 0) (X.fin (← s 0))))
+  | "muls_alias" => do pure (mat (mulScalar (← m 0) (X.fin (← s 0))))
   | "adds" => do pure (mat (addScalar (← m 0) (X.fin (← s 0))))
   | "muls" => do pure (mat (mulScalar (← m 0) (X.fin (← s 0))))
   | "transpose" => do pure (mat (transposeDense (← m 0)))
